@@ -80,7 +80,7 @@ func (h *Authorization) Unmarshal(v base.HeaderValue) error {
 			return fmt.Errorf("invalid value")
 		}
 
-		tmp2 := strings.Split(string(tmp), ":")
+		tmp2 := strings.SplitN(string(tmp), ":", 2)
 		if len(tmp2) != 2 {
 			return fmt.Errorf("invalid value")
 		}
